@@ -74,7 +74,7 @@ pub struct Cfg {
 /// Capacity used by every linearizability program: far above the ≤ 4 keys a
 /// program touches, so no eviction is due; if one happens all the same (the
 /// trace shows an eviction site) the run is judged with the "may evict" model.
-pub const ROOMY: usize = 1000;
+pub const ROOMY: usize = 64;
 
 impl Cfg {
     pub const fn roomy() -> Cfg {
@@ -412,96 +412,169 @@ pub fn program_keys(case: &Case) -> Vec<u8> {
     keys
 }
 
-/// Run one case. `Err` = harness/infrastructure trouble (never a verdict).
-pub fn run_case(case: &Case) -> Result<Run, String> {
-    let dir = if case.sys == Sys::Memory { None } else { Some(scratch_dir()?) };
-    let rt = new_rt()?;
-    let nowhere = Path::new("/nonexistent-vh-c11");
-    let system = Arc::new(System::build(case.sys, case.cfg, dir.as_ref().map_or(nowhere, |d| d.path()), &rt)?);
-    let n = case.tasks.len();
-    let baton: Arc<Baton<Event>> = Baton::new(n, &case.schedule);
-
-    // setup: sequential, recorded on the same time line
-    for (i, op) in case.setup.iter().enumerate() {
-        baton.record(Event::Invoke { task: SETUP_TASK, opi: i as u8, op: *op });
-        let res = match vh_engine::util::catch_panic(|| rt.block_on(system.exec(*op, SETUP_TASK, i as u8))) {
-            Ok(r) => r,
-            Err(p) => Res::Panic { norm: p.norm_msg(), file: p.file, line: p.line, msg: p.msg },
-        };
-        baton.record(Event::Return { task: SETUP_TASK, opi: i as u8, res });
-    }
-
-    for (t, ops) in case.tasks.iter().enumerate() {
-        let baton = Arc::clone(&baton);
-        let system = Arc::clone(&system);
-        let ops = ops.clone();
-        std::thread::Builder::new()
-            .name(format!("c11-task{t}"))
-            .stack_size(1 << 20)
-            .spawn(move || task_main(t, ops, baton, system))
-            .map_err(|e| format!("thread spawn: {e}"))?;
-    }
-    if n > 0 {
-        baton.start();
-    }
-    let out = baton.wait_all()?;
-
-    // sweep: get every key of the program, then read the figures (C10 clause 3)
-    let keys = program_keys(case);
-    let mut log = out.log;
-    for (i, k) in keys.iter().enumerate() {
-        let op = Op::Get { k: *k };
-        log.push(Entry::Event(Event::Invoke { task: SWEEP_TASK, opi: i as u8, op }));
-        let res = match vh_engine::util::catch_panic(|| rt.block_on(system.exec(op, SWEEP_TASK, i as u8))) {
-            Ok(r) => r,
-            Err(p) => Res::Panic { norm: p.norm_msg(), file: p.file, line: p.line, msg: p.msg },
-        };
-        log.push(Entry::Event(Event::Return { task: SWEEP_TASK, opi: i as u8, res }));
-    }
-    let figures = match vh_engine::util::catch_panic(|| rt.block_on(system.figures())) {
-        Ok(f) => f,
-        Err(p) => Err(format!("panic at {}:{}: {}", p.file, p.line, p.msg)),
-    };
-    drop(system);
-    drop(rt);
-    Ok(Run { log, choices: out.choices, unused_schedule: out.unused, figures, keys })
+/// What the workers of one run share.
+pub struct Job {
+    system: Arc<System>,
+    tasks: Vec<Vec<Op>>,
 }
 
-fn task_main(me: usize, ops: Vec<Op>, baton: Arc<Baton<Event>>, system: Arc<System>) {
+type TheBaton = Baton<Event, Job>;
+
+/// One controller (the calling thread) + up to three long-lived worker threads,
+/// each with its own current-thread tokio runtime and its own sched callback.
+pub struct Executor {
+    baton: Arc<TheBaton>,
+    rt: tokio::runtime::Runtime,
+    workers: usize,
+    /// base directory of this executor (one sub-directory per run)
+    dir: Option<tempfile::TempDir>,
+    serial: u64,
+}
+
+impl Drop for Executor {
+    fn drop(&mut self) {
+        // workers are not joined: after an aborted run one of them may be stuck for good
+        self.baton.shutdown();
+    }
+}
+
+impl Executor {
+    pub fn new() -> Result<Executor, String> {
+        Ok(Executor { baton: Baton::new(), rt: new_rt()?, workers: 0, dir: None, serial: 0 })
+    }
+
+    fn ensure_workers(&mut self, n: usize) -> Result<(), String> {
+        while self.workers < n {
+            let me = self.workers;
+            let baton = Arc::clone(&self.baton);
+            std::thread::Builder::new()
+                .name(format!("c11-task{me}"))
+                .stack_size(2 << 20)
+                .spawn(move || worker_main(me, baton))
+                .map_err(|e| format!("thread spawn: {e}"))?;
+            self.workers += 1;
+        }
+        Ok(())
+    }
+
+    /// Run one case. `Err` = harness/infrastructure trouble (never a verdict); the
+    /// executor must be dropped afterwards.
+    pub fn run(&mut self, case: &Case) -> Result<Run, String> {
+        let n = case.tasks.len();
+        if n > crate::sched::MAX_TASKS {
+            return Err(format!("{n} tasks: more than the scheduler supports"));
+        }
+        self.ensure_workers(n)?;
+        let run_dir = if case.sys == Sys::Memory {
+            None
+        } else {
+            if self.dir.is_none() {
+                self.dir = Some(scratch_dir()?);
+            }
+            self.serial += 1;
+            let d = self.dir.as_ref().map(|d| d.path().join(format!("r{}", self.serial))).unwrap_or_default();
+            std::fs::create_dir(&d).map_err(|e| format!("create {}: {e}", d.display()))?;
+            Some(d)
+        };
+        let nowhere = Path::new("/nonexistent-vh-c11");
+        let system = Arc::new(System::build(case.sys, case.cfg, run_dir.as_deref().unwrap_or(nowhere), &self.rt)?);
+        let job = Arc::new(Job { system: Arc::clone(&system), tasks: case.tasks.clone() });
+        let baton = Arc::clone(&self.baton);
+        baton.begin(n, &case.schedule, job);
+        let rt = &self.rt;
+        let exec = |op: Op, task: u8, opi: u8| match vh_engine::util::catch_panic(|| rt.block_on(system.exec(op, task, opi))) {
+            Ok(r) => r,
+            Err(p) => Res::Panic { norm: p.norm_msg(), file: p.file, line: p.line, msg: p.msg },
+        };
+
+        // setup: sequential, recorded on the same time line
+        for (i, op) in case.setup.iter().enumerate() {
+            baton.record(Event::Invoke { task: SETUP_TASK, opi: i as u8, op: *op });
+            let res = exec(*op, SETUP_TASK, i as u8);
+            baton.record(Event::Return { task: SETUP_TASK, opi: i as u8, res });
+        }
+        baton.start();
+        let out = baton.wait_all()?;
+
+        // sweep: get every key of the program, then read the figures (C10 clause 3)
+        let keys = program_keys(case);
+        let mut log = out.log;
+        for (i, k) in keys.iter().enumerate() {
+            let op = Op::Get { k: *k };
+            log.push(Entry::Event(Event::Invoke { task: SWEEP_TASK, opi: i as u8, op }));
+            let res = exec(op, SWEEP_TASK, i as u8);
+            log.push(Entry::Event(Event::Return { task: SWEEP_TASK, opi: i as u8, res }));
+        }
+        let figures = match vh_engine::util::catch_panic(|| rt.block_on(system.figures())) {
+            Ok(f) => f,
+            Err(p) => Err(format!("panic at {}:{}: {}", p.file, p.line, p.msg)),
+        };
+        drop(system);
+        if let Some(d) = run_dir {
+            let _ = std::fs::remove_dir_all(d);
+        }
+        Ok(Run { log, choices: out.choices, unused_schedule: out.unused, figures, keys })
+    }
+}
+
+thread_local! {
+    static EXECUTOR: std::cell::RefCell<Option<Executor>> = const { std::cell::RefCell::new(None) };
+}
+
+/// Run one case on the calling thread's executor. `Err` = infrastructure trouble.
+pub fn run_case(case: &Case) -> Result<Run, String> {
+    EXECUTOR.with(|slot| {
+        let mut slot = slot.borrow_mut();
+        if slot.is_none() {
+            *slot = Some(Executor::new()?);
+        }
+        let r = slot.as_mut().map(|e| e.run(case)).unwrap_or_else(|| Err("no executor".into()));
+        if r.is_err() {
+            // a worker may be stuck: abandon this executor (its threads are leaked)
+            *slot = None;
+        }
+        r
+    })
+}
+
+fn worker_main(me: usize, baton: Arc<TheBaton>) {
     let b1 = Arc::clone(&baton);
     let cb: Arc<dyn Fn(&'static str) + Send + Sync> = Arc::new(move |site| b1.point(me, site));
     cascette_cache::verif_hooks::set_sched(Some(Arc::clone(&cb)));
     cascette_client_storage::verif_hooks::set_sched(Some(cb));
-    let body = || {
-        let rt = new_rt().expect("tokio runtime");
-        baton.wait_turn(me);
-        rt.block_on(async {
-            for (i, op) in ops.iter().enumerate() {
-                if i > 0 {
-                    baton.point(me, "op.boundary");
+    let Ok(rt) = new_rt() else { return };
+    let mut last = 0u64;
+    while let Some((epoch, job)) = baton.next_job(me, last) {
+        last = epoch;
+        let body = || {
+            rt.block_on(async {
+                let ops = &job.tasks[me];
+                for (i, op) in ops.iter().enumerate() {
+                    if i > 0 {
+                        baton.point(me, "op.boundary");
+                    }
+                    baton.record(Event::Invoke { task: me as u8, opi: i as u8, op: *op });
+                    // a panic inside the operation is an observed result of that operation
+                    let fut = job.system.exec(*op, me as u8, i as u8);
+                    let res = match CatchPanic(Box::pin(fut)).await {
+                        Ok(r) => r,
+                        Err(None) => std::panic::resume_unwind(Box::new(crate::sched::Aborted)),
+                        Err(Some(p)) => Res::Panic { norm: p.norm_msg(), file: p.file, line: p.line, msg: p.msg },
+                    };
+                    let stop = matches!(res, Res::Panic { .. });
+                    baton.record(Event::Return { task: me as u8, opi: i as u8, res });
+                    if stop {
+                        // locks may be poisoned and state half-updated: this task stops here
+                        break;
+                    }
                 }
-                baton.record(Event::Invoke { task: me as u8, opi: i as u8, op: *op });
-                // a panic inside the operation is an observed result of that operation
-                let fut = system.exec(*op, me as u8, i as u8);
-                let res = match CatchPanic(Box::pin(fut)).await {
-                    Ok(r) => r,
-                    Err(None) => std::panic::resume_unwind(Box::new(crate::sched::Aborted)),
-                    Err(Some(p)) => Res::Panic { norm: p.norm_msg(), file: p.file, line: p.line, msg: p.msg },
-                };
-                let stop = matches!(res, Res::Panic { .. });
-                baton.record(Event::Return { task: me as u8, opi: i as u8, res });
-                if stop {
-                    // locks may be poisoned and state half-updated: this task stops here
-                    break;
-                }
-            }
-        });
-    };
-    // Aborted unwinds (and anything unexpected in the harness's own code) end the task
-    let _ = std::panic::catch_unwind(std::panic::AssertUnwindSafe(body));
-    cascette_cache::verif_hooks::set_sched(None);
-    cascette_client_storage::verif_hooks::set_sched(None);
-    baton.finish(me);
+            });
+        };
+        // Aborted unwinds (and anything unexpected in the harness's own code) end the task
+        let _ = std::panic::catch_unwind(std::panic::AssertUnwindSafe(body));
+        drop(job);
+        baton.finish(me);
+    }
 }
 
 /// Future adapter: a panic while polling becomes `Err(Some(info))`; the
